@@ -314,6 +314,41 @@ fn main_loop(w: &mut World, st: &mut St, tape: &mut Tape) -> Result<(), Violatio
                     // otherwise surface as an unexpected delivery in the datagram model): here it is a drop
                     w.stats.inc("fault.drop");
                 } else {
+                    // now and then a UDP datagram arrives with a few more octets in the IP payload than its own
+                    // length field covers (legal; the IP length fields are adjusted): the datagram is what the UDP
+                    // length says
+                    let mut frame = frame;
+                    if corrupted == 0 && w.faults_active() && tape.chance(1, 30) {
+                        if let Some(p) = &pkt {
+                            if let (Some(ip), Some(L4::Udp(_))) = (&p.ip, &p.l4) {
+                                if !ip.is_fragment() {
+                                    let l2 = if p.eth.is_some() { 14 } else { 0 };
+                                    let k = 1 + tape.draw(8) as usize;
+                                    for j in 0..k {
+                                        frame.push(0xa0 + j as u8);
+                                    }
+                                    if ip.v4.is_some() {
+                                        let ihl = ((frame[l2] & 0x0f) as usize) * 4;
+                                        let tl = (((frame[l2 + 2] as usize) << 8) | frame[l2 + 3] as usize) + k;
+                                        frame[l2 + 2] = (tl >> 8) as u8;
+                                        frame[l2 + 3] = tl as u8;
+                                        if frame[l2 + 10] != 0 || frame[l2 + 11] != 0 {
+                                            frame[l2 + 10] = 0;
+                                            frame[l2 + 11] = 0;
+                                            let cs = inet_csum(&frame[l2..l2 + ihl], 0);
+                                            frame[l2 + 10] = (cs >> 8) as u8;
+                                            frame[l2 + 11] = cs as u8;
+                                        }
+                                    } else {
+                                        let pl = (((frame[l2 + 4] as usize) << 8) | frame[l2 + 5] as usize) + k;
+                                        frame[l2 + 4] = (pl >> 8) as u8;
+                                        frame[l2 + 5] = pl as u8;
+                                    }
+                                    w.stats.inc("fault.udp-with-trailing-octets-in-the-ip-payload");
+                                }
+                            }
+                        }
+                    }
                     w.nodes[to].dev.rx.push_back(frame);
                     st.pending[to].push_back(tag);
                     if !st.p.exact && tape.chance(1, 8) {
